@@ -25,6 +25,10 @@ FUNCS = {
     'erf': (ALL, False), 'erfi': ([(F(-3, 2), F(3, 2))], False), 'gammaln': (POS, False), 'psi': (POS, False),
     'polygamma': (POS, False), 'hyperu': ([(F(1, 2), F(4))], False),
 }
+# the declared (open) domains themselves, for the special points 0, +-1/2, +-1, 2 that a random grid point rarely hits
+TRUE_DOM = {id(ALL): lambda x: True, id(POS): lambda x: x > 0, id(GTM1): lambda x: x > -1, id(ABS1): lambda x: abs(x) < 1,
+            id(GT1): lambda x: x > 1, id(NZ): lambda x: x != 0}
+SPECIAL = [F(0), F(1), F(-1), F(1, 2), F(-1, 2), F(2)]
 UNFOLD = 'unfold g_exp, g_exp2, g_expm1, g_log2, g_log10, g_log, g_log1p, g_sqrt, g_square, g_negative, g_reciprocal, g_sin, g_cos, g_sinh, g_cosh, g_arctanh, msign, zfact, ln2; cbn'
 
 
@@ -64,6 +68,19 @@ def main(tier, seed):
             if name == 'hyperu':
                 prm = [rng.choice([0.5, 1.0, 1.5, 2.25]), rng.choice([0.5, 1.5, 2.0, 3.25])]
             cases.append((name, prm, x, n, has_model))
+        # special points of the domain, every order
+        inside = TRUE_DOM.get(id(dom), (lambda x: x > 0) if name == 'hyperu' else (lambda x: True))
+        for x in SPECIAL:
+            if not inside(x):
+                continue
+            for n in (range(nmax + 1) if tier != 'quick' else [0, 1, 2, 3, rng.randint(4, nmax)]):
+                prm = []
+                if name == 'polygamma':
+                    prm = [rng.randint(0, 3)]
+                if name == 'hyperu':
+                    prm = [rng.choice([0.5, 1.0, 1.5, 2.25]), rng.choice([0.5, 1.5, 2.0, 3.25])]
+                rep.count('special point', str(x))
+                cases.append((name, prm, x, n, has_model))
     # implementation values
     results = []
     for name, prm, x, n, has_model in cases:
